@@ -2352,7 +2352,20 @@ fn type_alias(input: Span) -> IResult<Span, Statement> {
 /// A top-level item: a type alias or a value-producing sequence. A statement-level expression is a
 /// branchless sequence (branches `|`/`=>` require a block).
 fn top_level_item(input: Span) -> IResult<Span, Statement> {
-    alt((type_alias, map(sequence, Statement::Expression)))(input)
+    alt((type_alias, map(top_level_sequence, Statement::Expression)))(input)
+}
+
+/// A run of chains at the top level. It ends before a type-alias declaration (which would
+/// otherwise be read as a chain binding a type pattern, `'t = ...`) and leaves the separator in
+/// front of it for `program`, so aliases can follow steps as well as precede them.
+fn top_level_sequence(input: Span) -> IResult<Span, Sequence> {
+    map(
+        separated_list1(
+            seq_sep,
+            preceded(nom::combinator::not(type_alias), chain),
+        ),
+        |chains| Sequence { chains },
+    )(input)
 }
 
 /// A program is a single threaded sequence of chains with type-alias declarations interspersed —
